@@ -88,6 +88,15 @@ def _same(sh, kind, got, want, case, tags=None):
     return ok
 
 
+def _absc(got, want):
+    """An abscissa table that was never started (None) says the same as an all-NaN one:
+    no stored extreme has an abscissa."""
+    import numpy as np
+    if got is None and np.all(np.isnan(np.asarray(want, float))):
+        return np.full(np.shape(want), np.nan)
+    return got
+
+
 def _eq(sh, kind, got, want, case, tags=None):
     sh.count("mon:" + kind)
     if got != want:
@@ -233,7 +242,7 @@ def fam_ext(sh, r, cla, ref, desc):
         k = f"ext{ncol}"
         _same(sh, k + "-values", cur.ext, want["ext"], case, tags)
         if with_x:
-            _same(sh, k + "-abscissa", cur.ext_x, want["ext_x"], case, tags)
+            _same(sh, k + "-abscissa", _absc(cur.ext_x, want["ext_x"]), want["ext_x"], case, tags)
         else:
             _eq(sh, k + "-abscissa-none", cur.ext_x is None, True, case, tags)
         _eq(sh, k + "-maxcase", cur.maxcase, want["maxcase"], case, tags)
@@ -1049,8 +1058,8 @@ def _tree_compare(sh, np, ref, cont, node, cats, doappend, case_order, ext_name,
         ok &= _same(sh, "tree-values", got.ext,
                     np.array([[e["max"], e["min"]] for e in rows]), c2, tags)
         if want["any_x"]:
-            ok &= _same(sh, "tree-abscissa", got.ext_x,
-                        np.array([[e["max_x"], e["min_x"]] for e in rows]), c2, tags)
+            wx = np.array([[e["max_x"], e["min_x"]] for e in rows])
+            ok &= _same(sh, "tree-abscissa", _absc(got.ext_x, wx), wx, c2, tags)
         else:
             _eq(sh, "tree-abscissa-none", got.ext_x is None, True, c2, tags)
         ok &= _eq(sh, "tree-maxcase", list(got.maxcase), [e["maxcase"] for e in rows], c2,
